@@ -2,6 +2,7 @@ import AsyncVerif.Impl.Aggregations
 import AsyncVerif.Proofs.Core
 import AsyncVerif.Proofs.TwinMore
 import AsyncVerif.Proofs.Chain
+import AsyncVerif.Proofs.IsliceTwin
 /-!
 # C05 — laziness: sources pulled and callables invoked in the stdlib's order
 
@@ -106,5 +107,82 @@ theorem C05_compress (d sel fuel : Nat) : Twin (Impl.compress d sel fuel) (Std.c
 
 theorem C05_all (s fuel : Nat) : Twin (Impl.all s fuel) (Std.allLoop s fuel) := scopedIter_twin s _
 theorem C05_any (s fuel : Nat) : Twin (Impl.any s fuel) (Std.anyLoop s fuel) := scopedIter_twin s _
+
+/-! ## islice
+
+asyncstdlib's `islice` (skip `start` items, then an indexed loop with a limit) and CPython's `islice_next`
+(`cnt`/`next` state machine) are different loop structures, and their models burn fuel at different rates
+(asyncstdlib: one unit per pulled item; CPython: one unit per yielded item).  A literal `Twin` at equal
+fuel is therefore false at the fuel boundary (see the last example below); the twin is stated *up to
+fuel*, together with the proof that the fuel hypothesis is satisfiable in every world. -/
+
+/-- twin up to fuel: whenever neither run hits the model's fuel bound, same outcome and same visible log -/
+theorem C05_islice (s start : Nat) (stop : Option Nat) (step : Nat) (hstep : 1 ≤ step) (f1 f2 : Nat) (w : World)
+    (h1 : (Impl.islice s start stop step f1 w).1 ≠ .error .outOfFuel)
+    (h2 : (Std.islice s start stop step f2 w).1 ≠ .error .outOfFuel) :
+    (Impl.islice s start stop step f1 w).1 = (Std.islice s start stop step f2 w).1 ∧
+    (Impl.islice s start stop step f1 w).2.vis = (Std.islice s start stop step f2 w).2.vis :=
+  IsliceTwin.islice_twin s start stop step hstep f1 f2 w h1 h2
+
+/-- fuel adequacy, asyncstdlib side: in every world (any source kind/status, any fault script, any consumer)
+    `script length of s + 1` units of fuel are enough -/
+theorem islice_impl_fuel_adequate (s start : Nat) (stop : Option Nat) (step : Nat) (w : World) (f : Nat)
+    (hf : (w.srcs s).script.length + 1 ≤ f) :
+    (Impl.islice s start stop step f w).1 ≠ .error .outOfFuel :=
+  IsliceTwin.islice_impl_adequate s start stop step f w hf
+
+/-- fuel adequacy, CPython side -/
+theorem islice_std_fuel_adequate (s start : Nat) (stop : Option Nat) (step : Nat) (w : World) (f : Nat)
+    (hf : (w.srcs s).script.length + 1 ≤ f) :
+    (Std.islice s start stop step f w).1 ≠ .error .outOfFuel :=
+  IsliceTwin.islice_std_adequate s start stop step f w hf
+
+/-- the two combined: with enough fuel on both sides (not necessarily the same amount), in **every**
+    world the two `islice`s end the same way and leave the same visible log -/
+theorem C05_islice_fueled (s start : Nat) (stop : Option Nat) (step : Nat) (hstep : 1 ≤ step) (f1 f2 : Nat)
+    (w : World) (hf1 : (w.srcs s).script.length + 1 ≤ f1) (hf2 : (w.srcs s).script.length + 1 ≤ f2) :
+    (Impl.islice s start stop step f1 w).1 = (Std.islice s start stop step f2 w).1 ∧
+    (Impl.islice s start stop step f1 w).2.vis = (Std.islice s start stop step f2 w).2.vis :=
+  C05_islice s start stop step hstep f1 f2 w
+    (islice_impl_fuel_adequate s start stop step w f1 hf1)
+    (islice_std_fuel_adequate s start stop step w f2 hf2)
+
+/-! ### The hypotheses are satisfiable on concrete, non-trivial worlds -/
+
+section Examples
+
+private def it (n : Nat) : Resp := .item (.obj n n)
+
+/-- source 0: a class-based iterator delivering seven items; source 1: a generator that fails at its
+    fourth `__anext__`; the consumer takes two items more and then closes the tool -/
+private def exW : World where
+  srcs := fun s =>
+    if s = 0 then { kind := .aobj, script := [it 0, it 1, it 2, it 3, it 4, it 5, it 6] }
+    else { kind := .agen, script := [it 0, it 1, it 2, .err 9, it 4] }
+  fns := fun _ _ _ => .ok .none
+  calls := fun _ => 0
+  cons := .run 2 .close
+  vis := []
+  rel := []
+
+-- consumer closes at the third yield (indices 1, 3, 5 of source 0): both end with GeneratorExit
+private theorem exImpl : (Impl.islice 0 1 (some 7) 2 6 exW).1 = .error .genExit := by rfl
+private theorem exStd : (Std.islice 0 1 (some 7) 2 3 exW).1 = .error .genExit := by rfl
+example : (Impl.islice 0 1 (some 7) 2 6 exW).2.vis = (Std.islice 0 1 (some 7) 2 3 exW).2.vis :=
+  (C05_islice 0 1 (some 7) 2 (by decide) 6 3 exW (by rw [exImpl]; simp) (by rw [exStd]; simp)).2
+-- the source fails while items are being skipped: both propagate the fault after the same log
+example : (Impl.islice 1 0 none 3 6 exW).1 = .error (.user 9) := by rfl
+example : (Impl.islice 1 0 none 3 6 exW).2.vis = (Std.islice 1 0 none 3 6 exW).2.vis :=
+  (C05_islice_fueled 1 0 none 3 (by decide) 6 6 exW (by decide) (by decide)).2
+-- an exhausting consumer, `stop` cutting the slice: source 0 is pulled exactly `stop = 5` times
+example : (Impl.islice 0 2 (some 5) 2 8 { exW with cons := .run 0 .exhaust }).2.vis
+    = [.pull 0, .item 0 (.obj 0 0), .pull 0, .item 0 (.obj 1 1), .pull 0, .item 0 (.obj 2 2), .yld (.obj 2 2),
+       .pull 0, .item 0 (.obj 3 3), .pull 0, .item 0 (.obj 4 4), .yld (.obj 4 4)] := by rfl
+-- why "up to fuel": at equal fuel 4 CPython's model (one unit per yield) is done, asyncstdlib's model
+-- (one unit per pull) is not — a literal `Twin` at equal fuel does not hold at the boundary
+example : (Std.islice 0 0 none 2 5 { exW with cons := .run 0 .exhaust }).1 = .ok () := by rfl
+example : (Impl.islice 0 0 none 2 5 { exW with cons := .run 0 .exhaust }).1 = .error .outOfFuel := by rfl
+
+end Examples
 
 end AsyncVerif
